@@ -142,10 +142,45 @@ CLAIMS = {
             "MIR symbolic certificate analysis (T-CERT) with audited lemma table, controlling conditions, token-helper discipline"),
 }
 
-NA = {
-    "C06": "equality of reported probabilities with possible-worlds sums is a numeric statement over runtime values and a "
-           "tag fixpoint; no structural clause is both statically checkable and necessary (DESIGN.md §7)",
+CLAIMS["C06"] = ("DESIGN.md §9.7",
+                 "Decides only the propagation discipline that every provenance mode relies on, for all programs at once: every matched "
+                 "premise enters the conjunction (positive round and negative pass), every derivation of every conclusion is recorded "
+                 "(first tag or update_disjunction, none dropped), improved tags are queued, reported and joined again, rules are split "
+                 "into complementary strata with the positive fixpoint before the single negative pass, every negated atom is folded in "
+                 "(negated tag if present, certainty if absent), every seed gets its own identifier of one enumeration, an absent tag "
+                 "reads as one() and update_disjunction stores disjunction(old,new) iff not saturated. The numeric equality with the "
+                 "possible-worlds sum (model counting, saturation, recursion depth) is NOT decided.",
+                 "MIR iterator-pipeline completeness (T-PIPE), no-skip loop analysis, dominance, closure predicate polarity, def-use")
+
+# second round: clauses added to existing claims (DESIGN.md §9.6)
+EXTRA = {
+    "C01": (" Also decides that duplicate elimination (merged default graph, both DISTINCTs) tests every item with a key covering the whole item.",
+            ", dominance of the seen-set test"),
+    "C02": (" Also decides that the executor's rayon workers range over their whole input (no hand-made batches).", ", iterator-pipeline coverage"),
+    "C03": (" Also decides that every WHERE solution instantiates every template (no solution skipped or de-duplicated, every quad kept).",
+            ", no-skip loop analysis"),
+    "C04": (" Also decides that a delete which removes nothing performs no write (no graph identity created or resurrected).", ", controlling conditions of writes"),
+    "C05": (" Also decides that match-or-bind on a binding row is the last write before the row is emitted.", ", T-ORDER on row writes"),
+    "C07": (" Also decides that wmc_gradient restores every perturbed weight on every path and that no floating-point division with an "
+            "unguarded runtime divisor is reachable from wmc / wmc_gradient.", ", T-PAIR restore analysis, guarded-division scan over the call graph"),
+    "C09": (" Second round: also decides where the first opened interval closes (slide boundary at/after the event, origin t_0 = 0), that "
+            "scope() never replaces an open window's container, and that the report strategies are conjunctive.", ", loop linear arithmetic (T-LIN)"),
+    "C11": (" Also decides that no operand of the multi-window / static join is bypassed (an empty operand empties the result).", ", no-skip fold analysis"),
+    "C12": (" Second round: renewed expiry wins when seeding tags, the conjunction ranges over every matched premise, queued improvements are "
+            "consumed, static facts never expire and no component fact is dropped, component IRIs are matched longest first.", ", iterator-pipeline completeness (T-PIPE)"),
+    "C13": (" Also decides that the parallel line loaders hand their workers a total partition of the document's lines.", ", iterator-pipeline coverage"),
+    "C16": (" Second round: the text matched by the case-insensitive keyword helper never reaches a returned tree, and no sub-parser payload "
+            "is parsed and dropped (two audited exceptions).", ", component tracking + taint to the return value"),
+    "C18": (" Second round: also decides one-substitution-per-unification, transitive resolution of bindings, and that rule bodies are solved "
+            "as conjunctions (premise loop left only when exhausted or after replacing the solutions).", ", loop exit analysis"),
+    "C19": (" Second round: violates_constraints is a disjunction over all constraints, and repair-aware materialisation reloads exactly the "
+            "chosen repair into an emptied index.", ", iterator-pipeline completeness"),
 }
+for _pid, (_t, _k) in EXTRA.items():
+    _ref, _text, _tech = CLAIMS[_pid]
+    CLAIMS[_pid] = (_ref, _text + _t, _tech + _k)
+
+NA = {}
 
 PENDING = "check not implemented yet in this revision (see DESIGN.md for the planned rules)"
 
